@@ -131,5 +131,15 @@ def nonblock(ctx):
         calls.sort(key=lambda s: (-(f.pos_of(s)[0]), f.pos_of(s)[1]))
         names = [c["callee"]["name"] for c in calls]
         ok = names == ["arrive", "wait"] and f.dominates(f.pos_of(calls[0]), f.pos_of(calls[1]))
-        ctx.ob(rid, ok, f.where, "arrive_and_wait calls arrive() and then wait()", "" if ok else "calls: %s" % names,
+        if not ok:
+            # written out instead of composed: one arrival (a decrement of counter_, or arrive()), and after it a wait for
+            # the latch (wait(), or a condition wait of its own - whose discipline C10.cv / C10.wake judge)
+            arr = [c for c in calls if c["callee"]["name"] == "arrive"] + \
+                  [op["st"] for op in atomic_ops(f) if atomic_field_of(f, op) == (CLS, "counter_") and op["op"] in ("rmw", "cas")]
+            wts = [c for c in calls if c["callee"]["name"] == "wait"] + \
+                  [st for st in f.stmts.values() if st["k"] == "CXXMemberCallExpr" and st["callee"]["name"] in ("wait", "wait_for", "wait_until")
+                   and path(f, f.s(st["obj"])) == "this.cv"]
+            ok = len(arr) == 1 and bool(wts) and all(f.pos_of(arr[0]) and f.pos_of(w) and f.dominates(f.pos_of(arr[0]), f.pos_of(w)) for w in wts)
+            names = names + ["(arrivals: %d, waits: %d)" % (len(arr), len(wts))]
+        ctx.ob(rid, ok, f.where, "arrive_and_wait counts one arrival and then waits for the latch", "" if ok else "calls: %s" % names,
                fn=f.label, inst=f.qname)
